@@ -294,6 +294,40 @@ def plan_C03(w):
                                  "fame tables are compared on the set of famous witnesses and on witnesses decided in both instances (a late witness may stay undecided in one order and be decided not-famous in another; no output depends on it)"])
 
 
+def c10_corrupt(d):
+    # a node reports a validator-set entry that the blocks do not justify
+    if d.get("a") == "Sync" and len(d["o"].get("ps", [])) >= 2:
+        d["o"]["ps"][-1]["peers"] = d["o"]["ps"][-1]["peers"][:-1]
+        return True
+    return False
+
+
+def dyn_kinds(w, q):
+    if q:
+        return [("dynA", dict(traces=3, n=0, steps=330)), ("dynB", dict(traces=2, n=4, steps=380))]
+    return [("dyn%d" % i, dict(traces=4, n=0, steps=600)) for i in range(5)] + \
+           [("dynN4", dict(traces=4, n=4, steps=700)), ("dynBd", dict(traces=2, n=3, steps=500, store="badger", cache=500))]
+
+
+def plan_C10(w):
+    q = Q(w)
+    known = vlib.load_known()
+    run_mc(w, [("hg1", "MC_hg1.cfg", 4, 300)])
+    traces, sums = drive_all(w, gossip_specs(w, dyn_kinds(w, q)), mode="dyn")
+    tvs = w.validate_many(traces, par=6)
+    violations, known_hits, drift = judge(w, "C10", tvs, known)
+    st = None
+    if not violations:
+        st = selftest(w, "C10", first_segment(traces[0], os.path.join(w.dir, "seg.ndjson")), c10_corrupt,
+                      "last validator-set entry reported by a node lost one peer")
+    ops = {k: sum(s.get("extra", {}).get(k, 0) for s in sums) for k in ("joins", "leaves", "refused_by_app")}
+    extra = {"selftest": st, "membership_operations": ops,
+             "scenarios": "real Nodes over a synchronous transport: joins (new participants and participants that left earlier, replaying history from genesis with a fresh store), joins refused by the application, leaves, two requests started together (same activation window), random gossip with sync limit 40"}
+    if ops["joins"] + ops["leaves"] < 2:
+        raise Infra("vacuous run: no membership change happened")
+    return conclude(w, "C10", sums, violations, known_hits, drift, extra=extra)
+
+
 def c18_corrupt(d):
     if d.get("a") == "Sync":
         for b in d["o"].get("blocks", []):
@@ -358,6 +392,7 @@ def plan_C19(w):
 
 
 PLANS = {
+    "C10": plan_C10,
     "C05": plan_C05,
     "C03": plan_C03,
     "C18": plan_C18,
